@@ -738,6 +738,25 @@ pub fn scenarios(prop: &str, tier: &str) -> Vec<Arc<dyn Scenario>> {
                     OracleKind::C13,
                 ));
             }
+            {
+                // one key whose first value already lies in the last level: later weak tombstones and
+                // values meet (or do not meet) in flushes and partial merges above it
+                let mut ad = Alphabet::default();
+                ad.wdel_discipline = true;
+                ad.flush = true;
+                ad.pulldown = vec![(0, 3), (3, 6)];
+                ad.wms = vec![Wm::Tight, Wm::Zero];
+                ad.snap = true;
+                let seed = vec![Op::Put { k: 0, big: false }, Op::Flush { w: Wm::Zero }, Op::PullDown { from: 0, to: 6, w: Wm::Zero }];
+                v.push(std(
+                    "C13-deep-value",
+                    TreeCfg::small(vec![b"a".to_vec()]),
+                    ad,
+                    if quick { bs(4, 3, 1, 0, 0) } else { bs(5, 5, 1, 1, 0) },
+                    vec![seed],
+                    OracleKind::C13,
+                ));
+            }
             if !quick {
                 let mut c = TreeCfg::small(keys_ab()).with_blob(1);
                 c.block_size = 4096;
